@@ -1,7 +1,9 @@
 use crate::engine::{Ctx, PropInfo, Verdict};
 use serde_json::Value;
 
+pub mod c01;
 pub mod c06;
+pub mod c08;
 pub mod c13;
 pub mod c14;
 pub mod c15;
@@ -17,7 +19,7 @@ pub struct PropDef {
 }
 
 pub fn all() -> Vec<PropDef> {
-    vec![c06::def(), c13::def(), c14::def(), c15::def(), c15::def16(), c17::def(), c19::def()]
+    vec![c01::def01(), c01::def03(), c01::def04(), c06::def(), c08::def(), c13::def(), c14::def(), c15::def(), c15::def16(), c17::def(), c19::def()]
 }
 
 pub fn find(id: &str) -> Option<PropDef> {
